@@ -11,6 +11,8 @@ package geom
 //@ pred NPts(s) = len(s.floats) / Dim(s.ctype)
 //@ pred HasZ(t) = t == 1 || t == 3
 //@ pred HasM(t) = t == 2 || t == 3
+// r is s with the order of its points reversed (every ordinate of every point carried along)
+//@ pred SeqReversed(r, s) = r.ctype == s.ctype && len(r.floats) == len(s.floats) && (forall q, d :: 0 <= q && q < NPts(s) && 0 <= d && d < Dim(s.ctype) ==> same(r.floats[q*Dim(s.ctype)+d], s.floats[(NPts(s)-1-q)*Dim(s.ctype)+d]))
 
 //@ prop C16,C20,C10
 
